@@ -1,0 +1,146 @@
+//! Read-only observation hook (feature `verif-hooks`): a canonical snapshot of the
+//! connection state. Every collection is sorted so that the snapshot does not depend
+//! on hash seeds. Nothing here changes the connection.
+use super::*;
+
+/// Snapshot of the sender-side topic alias table.
+#[derive(Debug, Clone, PartialEq, Eq, Default)]
+pub struct VerifTopicAliasSend {
+    pub max: u16,
+    /// alias -> topic in LRU order (least recently used first)
+    pub alias_to_topic: Vec<(u16, String)>,
+    /// topic -> aliases, sorted by topic
+    pub topic_to_aliases: Vec<(String, Vec<u16>)>,
+    /// free alias intervals
+    pub free: Vec<(u16, u16)>,
+}
+
+/// Canonical snapshot of a `GenericConnection`.
+#[derive(Debug, Clone, PartialEq, Eq, Default)]
+pub struct VerifState {
+    /// 0 = disconnected, 1 = connecting, 2 = connected
+    pub status: u8,
+    /// 0 = undetermined, 4 = v3.1.1, 5 = v5.0
+    pub protocol_version: u8,
+    pub is_client: bool,
+    pub need_store: bool,
+    pub offline_publish: bool,
+    pub auto_pub_response: bool,
+    pub auto_ping_response: bool,
+    pub auto_map_topic_alias_send: bool,
+    pub auto_replace_topic_alias_send: bool,
+    /// free packet id intervals
+    pub pid_free: Vec<(u64, u64)>,
+    pub pid_suback: Vec<u64>,
+    pub pid_unsuback: Vec<u64>,
+    pub pid_puback: Vec<u64>,
+    pub pid_pubrec: Vec<u64>,
+    pub pid_pubcomp: Vec<u64>,
+    /// stored packets in store order: (packet id, true = PUBREL / false = PUBLISH)
+    pub store: Vec<(u64, bool)>,
+    pub qos2_publish_handled: Vec<u64>,
+    pub topic_alias_send: Option<VerifTopicAliasSend>,
+    pub topic_alias_recv: Option<(u16, Vec<(u16, String)>)>,
+    pub publish_send_max: Option<u16>,
+    pub publish_recv_max: Option<u16>,
+    pub publish_send_count: u16,
+    pub publish_recv: Vec<u64>,
+    pub maximum_packet_size_send: u32,
+    pub maximum_packet_size_recv: u32,
+    pub pingreq_user_send_interval_ms: Option<u64>,
+    pub pingreq_keep_alive_ms: u64,
+    pub pingreq_server_keep_alive_ms: Option<u64>,
+    pub pingreq_recv_timeout_ms: u64,
+    pub pingresp_recv_timeout_ms: u64,
+    pub pingreq_send_set: bool,
+    pub pingreq_recv_set: bool,
+    pub pingresp_recv_set: bool,
+    /// bytes of a partially received packet held by the frame builder
+    pub builder_buffered: usize,
+}
+
+fn sorted<T: IsPacketId>(s: &HashSet<T>) -> Vec<u64> {
+    let mut v: Vec<u64> = s.iter().map(|x| x.to_u64().unwrap()).collect();
+    v.sort_unstable();
+    v
+}
+
+impl<Role, PacketIdType> GenericConnection<Role, PacketIdType>
+where
+    Role: RoleType,
+    PacketIdType: IsPacketId,
+{
+    /// Canonical, read-only snapshot of the whole connection state.
+    pub fn verif_state(&self) -> VerifState {
+        VerifState {
+            status: match self.status {
+                ConnectionStatus::Disconnected => 0,
+                ConnectionStatus::Connecting => 1,
+                ConnectionStatus::Connected => 2,
+            },
+            protocol_version: match self.protocol_version {
+                Version::Undetermined => 0,
+                Version::V3_1_1 => 4,
+                Version::V5_0 => 5,
+            },
+            is_client: self.is_client,
+            need_store: self.need_store,
+            offline_publish: self.offline_publish,
+            auto_pub_response: self.auto_pub_response,
+            auto_ping_response: self.auto_ping_response,
+            auto_map_topic_alias_send: self.auto_map_topic_alias_send,
+            auto_replace_topic_alias_send: self.auto_replace_topic_alias_send,
+            pid_free: self
+                .pid_man
+                .verif_intervals()
+                .into_iter()
+                .map(|(l, h)| (l.to_u64().unwrap(), h.to_u64().unwrap()))
+                .collect(),
+            pid_suback: sorted(&self.pid_suback),
+            pid_unsuback: sorted(&self.pid_unsuback),
+            pid_puback: sorted(&self.pid_puback),
+            pid_pubrec: sorted(&self.pid_pubrec),
+            pid_pubcomp: sorted(&self.pid_pubcomp),
+            store: self
+                .store
+                .get_stored()
+                .iter()
+                .map(|p| {
+                    (
+                        p.packet_id().to_u64().unwrap(),
+                        matches!(
+                            p.response_packet(),
+                            ResponsePacket::V3_1_1Pubcomp | ResponsePacket::V5_0Pubcomp
+                        ),
+                    )
+                })
+                .collect(),
+            qos2_publish_handled: sorted(&self.qos2_publish_handled),
+            topic_alias_send: self.topic_alias_send.as_ref().map(|t| {
+                let (max, alias_to_topic, topic_to_aliases, free) = t.verif_dump();
+                VerifTopicAliasSend {
+                    max,
+                    alias_to_topic,
+                    topic_to_aliases,
+                    free,
+                }
+            }),
+            topic_alias_recv: self.topic_alias_recv.as_ref().map(|t| t.verif_dump()),
+            publish_send_max: self.publish_send_max,
+            publish_recv_max: self.publish_recv_max,
+            publish_send_count: self.publish_send_count,
+            publish_recv: sorted(&self.publish_recv),
+            maximum_packet_size_send: self.maximum_packet_size_send,
+            maximum_packet_size_recv: self.maximum_packet_size_recv,
+            pingreq_user_send_interval_ms: self.pingreq_user_send_interval_ms,
+            pingreq_keep_alive_ms: self.pingreq_keep_alive_ms,
+            pingreq_server_keep_alive_ms: self.pingreq_server_keep_alive_ms,
+            pingreq_recv_timeout_ms: self.pingreq_recv_timeout_ms,
+            pingresp_recv_timeout_ms: self.pingresp_recv_timeout_ms,
+            pingreq_send_set: self.pingreq_send_set,
+            pingreq_recv_set: self.pingreq_recv_set,
+            pingresp_recv_set: self.pingresp_recv_set,
+            builder_buffered: self.packet_builder.verif_buffered(),
+        }
+    }
+}
